@@ -54,6 +54,11 @@ def generate(rng, index, tier):
         users.append({'name': f'u{i}', 'status': rng.choice(('online', 'online', 'away', 'offline', 'unknown')),
                       'friend': rng.random() < 0.3, 'privileged': rng.random() < 0.2,
                       'files': rng.randint(1, 3)})
+    for u in users:
+        if rng.random() < 0.25:
+            # this user drops its control connection right after asking; the client has to open a connection of its own,
+            # which takes a while (longer than one management cycle)
+            u['reach'] = {'delay': rng.choice([0.3, 1.5, 4.0, 8.0])}
     events = []
     # every user's files get requested at some point, in random order
     reqs = [(u['name'], f) for u in users for f in range(u['files'])]
@@ -129,6 +134,16 @@ def corpus(tier):
                 evs.append({'do': back, 'user': 'u0', 'file': 0, 'gap': 0.6 if leave else 3.0})
                 evs.append({'do': 'request', 'user': 'u1', 'file': 0, 'gap': gap})
                 out.append(plan(two, 2, evs, size=60000 if leave else 20000, speed_kbps=20))
+    # the selected user is slow to reach (control connection dropped, connect takes 1.5 / 4 s): a higher-ranked user asks
+    # meanwhile; one slot
+    for delay in (1.5, 4.0):
+        for gap in (0.1, 0.5, 1.0):
+            slowu = [{'name': 'u0', 'status': 'online', 'friend': False, 'privileged': False, 'files': 1, 'reach': {'delay': delay}},
+                     {'name': 'u1', 'status': 'online', 'friend': False, 'privileged': True, 'files': 1},
+                     {'name': 'u2', 'status': 'online', 'friend': True, 'privileged': False, 'files': 1}]
+            out.append(plan(slowu, 1, [{'do': 'request', 'user': 'u0', 'file': 0, 'gap': 0.0},
+                                       {'do': 'request', 'user': 'u1', 'file': 0, 'gap': gap},
+                                       {'do': 'request', 'user': 'u2', 'file': 0, 'gap': gap}]))
     # offline user never started; comes online later
     out.append(plan([{'name': 'u0', 'status': 'offline', 'friend': False, 'privileged': False, 'files': 1},
                      {'name': 'u1', 'status': 'online', 'friend': False, 'privileged': False, 'files': 1}], 2,
@@ -367,6 +382,24 @@ def _run(world: World, plan):
     fired = world.net.fired
     remote = {}
 
+    async def request_and_hang_up(xp, path):
+        await xp.request_file(path)
+        await asyncio.sleep(0.02)
+        fired['control_connection_dropped'] += 1
+        for link in list(xp.p_links):
+            if link.is_open():
+                link.close()
+
+    def connect_hook(attempt):
+        if attempt['src'] != 'alice':
+            return None
+        r = users.get(attempt['dst'], {}).get('reach')
+        if r:
+            fired['slow_connect_to_downloader'] += 1
+            return ('slow', float(r['delay']))
+        return None
+    world.net.connect_hook = connect_hook
+
     async def main():
         await world.start_client(alice)
         c = world.call(alice, 'scan', client.shares.scan)
@@ -385,7 +418,10 @@ def _run(world: World, plan):
                 path = remote[ev['file']]
                 if path not in xp.downloads:
                     xp.want(path, **xp.dl_beh.get('*', {}))
-                xp.peer.spawn(xp.request_file(path))
+                if users[ev['user']].get('reach'):
+                    xp.peer.spawn(request_and_hang_up(xp, path))
+                else:
+                    xp.peer.spawn(xp.request_file(path))
             elif do == 'slots':
                 fired['limit_change'] += 1
                 settings.transfers.limits.upload_slots = ev['value']
